@@ -2,7 +2,10 @@
 //! please ref the doc and comments from std::sys_common::poison
 
 use std::sync::atomic::{AtomicUsize, Ordering};
+#[cfg(not(kani))]
 use std::sync::{LockResult, PoisonError};
+#[cfg(kani)]
+use crate::verif_shim::poison::{LockResult, PoisonError};
 use std::thread;
 
 pub struct Flag {
@@ -63,3 +66,7 @@ where
         Err(guard) => Err(PoisonError::new(f(guard.into_inner()))),
     }
 }
+
+#[cfg(kani)]
+#[path = "/verif/harness/may/sync_poison.rs"]
+mod verif_kani;
